@@ -540,6 +540,51 @@ def typed_part(ctx, fn):
     if f is not None:
         f(ctx)
 
+TIO_DOCS = {
+    0: [b'[1,2,3]', b'[300,1]', b'[300 ', b'[1, 300, 2]', b'[]', b'[1,]', b'{"a":1}'],
+    1: [b'{"a":1,"b":2}', b'{"a":300 }', b'{"a":300,"b":1}', b'{"a":[1]}', b'{}'],
+    2: [b'[1]', b'[1,2]', b'[1,', b'[]', b'[300]'],
+    3: [b'{"a":1,"b":true}', b'{"a":1,"zz":[1,{"x":"y"}],"b":null}', b'{"a":1,"a":2 }', b'{"b":false}', b'[1,true]', b'{"a":"x"}'],
+    4: [b'{"A":7}', b'{"B":{"x":1}}', b'"C"', b'{"D":[1,2]}', b'{"A":300}', b'{"A":1,"B":2}', b'{"Q":1}', b'"A"'],
+    5: [b'[[1,"a"],[2,"b\\n"]]', b'[[1,"a"],[300,"b"]]', b'[[1]]'],
+    6: [b'{"1":[1,-170141183460469231731687303715884105728],"-2":[]}', b'{"x":[]}', b'{"1":[1e3]}'],
+    7: [b'null', b'[{"A":1},"C",{"B":{"x":2}}]', b'[{"A":1},{"A":300},"C"]', b' nul'],
+}
+
+def judge_c13_typed(ctx, cfg):
+    """typed targets (real derive / std types) over a failing reader: the outcome must be the injected Io error, or the error the parser had
+    already found before needing the missing byte. Known finding F18: a visitor (data) error found earlier is reported even if the reader then
+    fails while the parser looks for the end of the sequence / map."""
+    lines, meta = [], []
+    for ty, docs in TIO_DOCS.items():
+        for d in docs:
+            lines.append('tio %d - 1 %s' % (ty, hx(d)))
+            meta.append((ty, d, None))
+            for k in range(len(d) + 1):
+                lines.append('tio %d %d %d %s' % (ty, k, 2 + k % 3, hx(d)))
+                meta.append((ty, d, k))
+    outs = ctx.impl(cfg, lines, 'sjh_io')
+    free = {}
+    v = []
+    for (ty, d, k), o in zip(meta, outs):
+        if k is None:
+            free[(ty, d)] = o
+            continue
+        f = free[(ty, d)]
+        if o.startswith('EIo/io/%d' % (2 + k % 3)):
+            if not ctx.quiet:
+                ctx.distinct_nontrivial += 1
+            continue
+        if o == f and not f.startswith('ok'):
+            continue          # the parser had already failed identically before needing byte k
+        what = 'typed-io-outcome'
+        if o.startswith('SCHEDULE'):
+            what = 'typed-io-schedule-dependent'
+        elif o.startswith('EMessage/data'):
+            what = 'data-error-masks-io-error'
+        v.append({'what': what, 'cfg': cfg, 'input': hx(d), 'type': ty, 'fail_at': k, 'expected': 'Io error with the injected kind, or the fault-free error (%s)' % f, 'actual': o, 'shrinkable': False})
+    return v
+
 def run_c13(ctx):
     ctx.rule = ('reader side: for generated documents (valid and invalid) a reader that fails persistently with each of several ErrorKinds once k bytes were delivered, '
                 'for every k in 0..=len, under chunkings 1/3/64/pseudo-random with Interrupted interleaved (all must agree), Value and IgnoredAny targets; outcome must equal '
@@ -555,6 +600,7 @@ def run_c13(ctx):
         streams = [b'[1] [2] [3]', b'1 2 3', b'"a""b" "c"', b' {"k":1}\n{"k":2}', b'true false null', b'[1] x', b'', b'  ', b'1'] + \
                   [s for s in itertools.islice(stream_inputs(ctx, 3000), 0, None, 11) if len(s) < 60][:150 if ctx.tier == 'quick' else 1500]
         ctx.violations += judge_c13_stream(ctx, cfg, streams)
+        ctx.violations += judge_c13_typed(ctx, cfg)
         ctx.violations += writer_faults(ctx, cfg)
         for d in docs[:4]:
             ctx.sample({'op': 'io', 'cfg': cfg, 'doc_hex': hx(d), 'fail_at': 'every k in 0..=len', 'kinds': 'TimedOut, BrokenPipe, ...'})
